@@ -11,6 +11,7 @@ import os
 import re
 import shutil
 import subprocess
+import tempfile
 import time
 from dataclasses import dataclass, field
 
@@ -171,3 +172,28 @@ def sany(area: str, module: str) -> None:
     out = p.stdout + p.stderr
     if p.returncode != 0 or "*** Errors" in out or "Parse Error" in out or "Fatal errors" in out:
         raise MachineryError(f"SANY failed on {area}/{module}:\n{out[-3000:]}")
+
+
+def run_apalache(area: str, module: str, *, init: str, inv: str, length: int, tmp: str, timeout: float = 600) -> str:
+    """apalache-mc check on spec/<area>/<module>.tla -> "NoError" | "Error" | "unavailable".
+    Used for inductive-invariant obligations (Init => IndInv, IndInv /\\ Next => IndInv', IndInv => Safety)."""
+    exe = shutil.which("apalache-mc")
+    if exe is None:
+        return "unavailable"
+    spec_dir = os.path.join(SPEC_ROOT, area)
+    out_dir = tempfile.mkdtemp(prefix="apa-", dir=tmp)
+    e = dict(os.environ)
+    e["TMPDIR"] = out_dir
+    cmd = [exe, "check", f"--init={init}", f"--inv={inv}", f"--length={length}", f"--out-dir={out_dir}",
+           f"--run-dir={out_dir}/run", "--write-intermediate=false", os.path.join(spec_dir, module + ".tla")]
+    try:
+        p = subprocess.run(cmd, cwd=out_dir, env=e, capture_output=True, text=True, timeout=timeout)
+    except subprocess.TimeoutExpired:
+        shutil.rmtree(out_dir, ignore_errors=True)
+        raise MachineryError(f"apalache timeout after {timeout}s on {area}/{module} init={init} inv={inv}")
+    shutil.rmtree(out_dir, ignore_errors=True)
+    out = p.stdout + p.stderr
+    m = re.search(r"The outcome is: (\w+)", out)
+    if not m or m.group(1) not in ("NoError", "Error"):
+        raise MachineryError(f"apalache failed on {area}/{module} init={init} inv={inv}:\n{out[-1500:]}")
+    return m.group(1)
